@@ -103,9 +103,13 @@ class Engine:
 
     # lists ------------------------------------------------------------
     def list_len(self, st, v):
+        if v.py is not None and isinstance(v.py, tuple) and v.py[0] == 'vallist':
+            return v.py[1]
         return st.heap.rd('len', v.t)
 
     def list_arr(self, st, v):
+        if v.py is not None and isinstance(v.py, tuple) and v.py[0] == 'vallist':
+            return v.py[2]
         return st.heap.rd('el:' + elem_tag(v.k[1]), v.t)
 
     def list_get(self, st, v, i):
@@ -117,6 +121,8 @@ class Engine:
         return Val(v.k[1], e)
 
     def mk_list(self, st, ek, length, content):
+        if st.spec:     # contract clauses build VALUES: nothing is allocated, the heap is not touched
+            return Val(('list', ek), None, ('vallist', length, content))
         r = self.new_ref(st)
         st.heap.wr('len', r, length)
         st.heap.wr('el:' + elem_tag(ek), r, content)
@@ -137,6 +143,8 @@ class Engine:
 
     # arrays -----------------------------------------------------------
     def mk_arr(self, st, ndim, ek, shape, content):
+        if st.spec:
+            return Val(('arr', ndim, ek), None, ('valarr', list(shape), content))
         r = self.new_ref(st)
         st.heap.wr('sh0', r, shape[0])
         if ndim == 2:
@@ -145,6 +153,8 @@ class Engine:
         return Val(('arr', ndim, ek), r)
 
     def arr_shape(self, st, v):
+        if v.py is not None and isinstance(v.py, tuple) and v.py[0] == 'valarr':
+            return list(v.py[1])
         s0 = st.heap.rd('sh0', v.t)
         sh = [s0] if v.k[1] == 1 else [s0, st.heap.rd('sh1', v.t)]
         key = 'shape>=0:%s:%s' % (v.t.sexpr(), s0.get_id())
@@ -155,6 +165,8 @@ class Engine:
         return sh
 
     def arr_data(self, st, v):
+        if v.py is not None and isinstance(v.py, tuple) and v.py[0] == 'valarr':
+            return v.py[2]
         return st.heap.rd('d%d:%s' % (v.k[1], elem_tag(v.k[2])), v.t)
 
     def norm_index(self, st, i, n, node, what='index'):
@@ -198,6 +210,8 @@ class Engine:
                 elif a[0] == 'each' and key == a[3]:
                     q = z3.Int(fresh_name('q'))
                     okl.append(z3.Exists([q], z3.And(0 <= q, q < a[1], z3.Select(a[2], q) == ref)))
+                elif a[0] == 'block':
+                    okl.append(z3.And(a[1] <= ref, ref < a[1] + a[2]))
             self.oblige(st, "loop%s:modifies:%s@L%d" % (ordn, what, getattr(node, 'lineno', 0)), 'frame',
                         z3.Or(*okl), node)
 
@@ -576,6 +590,8 @@ class Engine:
                     if st.ghost.get('qdepth', 0) == 0:
                         b = st.heap.bound(key)
                         st.assume(z3.And(v.t >= 0, v.t < st.heap.alloc, z3.Implies(base.t < b, v.t < b)))
+                        if st.heap.known_below(base.t, st.heap.bound_pos(key)):
+                            st.heap.note_below(v.t, st.heap.bound_pos(key))
                 return v
             # property getter?
             if sch is not None:
@@ -613,6 +629,10 @@ class Engine:
         base = self.ev(node.value, st)
         from . import models
         return models.subscript_load(self, st, base, node.slice, node)
+
+    def ev_DictComp(self, node, st):
+        from . import models
+        return models.dict_comp(self, st, node)
 
     def ev_ListComp(self, node, st):
         from . import models
